@@ -71,10 +71,11 @@ SameMembers == Finished => \A p \in Points : Flat(p) /\ TaintTable[p] # "members
                               SeqToSet(out[1][p]) = SeqToSet(out[2][p])
 \* the artefacts NOT downstream of common.py:933 are deterministic even as implemented
 OffPathArtefactsSame == Finished => \A a \in Artefacts \ HashOrderArtefacts : out[1][a] = out[2][a]
-\* exactly these artefacts inherit the hash order (documented in the findings)
+\* exactly these artefacts inherit the hash order (documented in the findings); constant-level
 HashOrderArtefactsAre ==
   HashOrderArtefacts = {"all_dot_brackets", "map_all_dot_brackets", "cli_stdout_all"}
   /\ \A a \in Artefacts : TaintAsImplemented[a] # "members" /\ TaintRequired[a] = "none"
+ASSUME HashOrderArtefactsAre
 \* static lemmas (evaluated once, in the initial state)
 Lemmas == (run = 1 /\ pc = 1) => ChainLemma(MaxChain) /\ PipelineLemma(Asg)
 =============================================================================
